@@ -1,1 +1,71 @@
-// placeholder
+//! Tables typed by hand from the MPD protocol reference / MPD sources (trusted base; NOT derived
+//! from /repo): tag names (tag/Names.c), idle subsystem names (IdleFlags.cxx).
+
+use mpd_client::tag::Tag;
+
+/// (named variant, protocol name) — MPD 0.23 `tag_item_names`.
+pub fn named_tags() -> Vec<(Tag, &'static str)> {
+    vec![
+        (Tag::Artist, "Artist"),
+        (Tag::ArtistSort, "ArtistSort"),
+        (Tag::Album, "Album"),
+        (Tag::AlbumSort, "AlbumSort"),
+        (Tag::AlbumArtist, "AlbumArtist"),
+        (Tag::AlbumArtistSort, "AlbumArtistSort"),
+        (Tag::Title, "Title"),
+        (Tag::Track, "Track"),
+        (Tag::Name, "Name"),
+        (Tag::Genre, "Genre"),
+        (Tag::Date, "Date"),
+        (Tag::OriginalDate, "OriginalDate"),
+        (Tag::Composer, "Composer"),
+        (Tag::ComposerSort, "ComposerSort"),
+        (Tag::Performer, "Performer"),
+        (Tag::Conductor, "Conductor"),
+        (Tag::Work, "Work"),
+        (Tag::Ensemble, "Ensemble"),
+        (Tag::Movement, "Movement"),
+        (Tag::MovementNumber, "MovementNumber"),
+        (Tag::Location, "Location"),
+        (Tag::Grouping, "Grouping"),
+        (Tag::Comment, "Comment"),
+        (Tag::Disc, "Disc"),
+        (Tag::Label, "Label"),
+        (Tag::MusicBrainzArtistId, "MUSICBRAINZ_ARTISTID"),
+        (Tag::MusicBrainzReleaseId, "MUSICBRAINZ_ALBUMID"),
+        (Tag::MusicBrainzReleaseArtistId, "MUSICBRAINZ_ALBUMARTISTID"),
+        (Tag::MusicBrainzRecordingId, "MUSICBRAINZ_TRACKID"),
+        (Tag::MusicBrainzTrackId, "MUSICBRAINZ_RELEASETRACKID"),
+        (Tag::MusicBrainzWorkId, "MUSICBRAINZ_WORKID"),
+    ]
+}
+
+/// Other names that are valid in the places a tag name can appear (filters, list types).
+pub const OTHER_TAG_NAMES: &[&str] = &["any", "file", "Mood", "x-custom", "my_tag", "TitleSort", "ShowMovement", "a", "Z", "foo-bar_baz"];
+
+/// MPD `idle_names` (IdleFlags.cxx).
+pub const SUBSYSTEMS: &[&str] = &[
+    "database", "stored_playlist", "playlist", "player", "mixer", "output", "options", "sticker", "update", "subscription", "message", "neighbor", "mount", "partition",
+];
+
+use mpd_client::client::Subsystem;
+
+/// (named variant, protocol name): the variant documented for each idle subsystem name.
+pub fn named_subsystems() -> Vec<(Subsystem, &'static str)> {
+    vec![
+        (Subsystem::Database, "database"),
+        (Subsystem::StoredPlaylist, "stored_playlist"),
+        (Subsystem::Queue, "playlist"),
+        (Subsystem::Player, "player"),
+        (Subsystem::Mixer, "mixer"),
+        (Subsystem::Output, "output"),
+        (Subsystem::Options, "options"),
+        (Subsystem::Sticker, "sticker"),
+        (Subsystem::Update, "update"),
+        (Subsystem::Subscription, "subscription"),
+        (Subsystem::Message, "message"),
+        (Subsystem::Neighbor, "neighbor"),
+        (Subsystem::Mount, "mount"),
+        (Subsystem::Partition, "partition"),
+    ]
+}
